@@ -126,6 +126,13 @@ def observe(r):
     return {"kind": 20, "shape": [], "data": [], "note": type(r).__name__}
 
 
+def same_obs(a, b):
+    if a["kind"] >= 10 and b["kind"] >= 10:
+        return True
+    return (a["kind"] == b["kind"] and list(a["shape"]) == list(b["shape"])
+            and [tofrac(x) for x in a["data"]] == [tofrac(x) for x in b["data"]])
+
+
 def main():
     req = json.load(sys.stdin)
     out = []
@@ -144,6 +151,12 @@ def main():
                     break
             o = {"kind": 10 + code, "shape": [], "data": [], "note": "%s: %s" % (type(ex).__name__, str(ex)[:160])}
         o["id"] = c["id"]
+        try:
+            orc = loop_oracle(c)
+        except Exception:
+            orc = None
+        if orc is not None:
+            o["oracle_ok"] = same_obs(orc, o)
         out.append(o)
     # real Field objects (a small mesh): operator(c, field) must be operator(c, field())
     real = []
@@ -219,8 +232,55 @@ def _err():
     return {"kind": 10, "shape": [], "data": []}
 
 
+def _matfun_oracle(c):
+    """exact rational Leibniz determinant / adjugate inverse / trace of every trailing matrix"""
+    import itertools
+    from fractions import Fraction
+    o = c["args"][0]
+    sh = o["shape"]
+    if o["k"] == "scalar" or len(sh) < 2 or sh[-1] != sh[-2] or sh[-1] == 0:
+        return None
+    if o["k"] == "fe" and len(sh) < 4:
+        return None
+    n = sh[-1]
+    vals = [tofrac(x) for x in o["data"]]
+    nb = len(vals) // (n * n)
+    out = []
+    for b in range(nb):
+        m = [[vals[b * n * n + i * n + j] for j in range(n)] for i in range(n)]
+
+        def det(mm):
+            k = len(mm)
+            tot = Fraction(0)
+            for perm in itertools.permutations(range(k)):
+                inv = sum(1 for x in range(k) for y in range(x + 1, k) if perm[x] > perm[y])
+                term = Fraction(-1 if inv % 2 else 1)
+                for i in range(k):
+                    term *= mm[i][perm[i]]
+                tot += term
+            return tot
+        if c["op"] == "Trace":
+            out.append(sum(m[i][i] for i in range(n)))
+        elif c["op"] == "Det":
+            out.append(det(m))
+        else:
+            d = det(m)
+            if d == 0:
+                return None
+            for i in range(n):
+                for j in range(n):
+                    minor = [[m[r][s] for s in range(n) if s != i] for r in range(n) if r != j]
+                    cof = (det(minor) if n > 1 else Fraction(1)) * (-1 if (i + j) % 2 else 1)
+                    out.append(cof / d)
+    shape = list(sh) if c["op"] == "Inv" else list(sh[:-2])
+    data = [x.numerator if x.denominator == 1 else [x.numerator, x.denominator] for x in out]
+    return {"kind": 1 if o["k"] == "fe" else 0, "shape": shape, "data": data}
+
+
 def loop_oracle(c):
     op = c["op"]
+    if op in ("Det", "Inv", "Trace"):
+        return _matfun_oracle(c)
     if op not in ("ufunc2", "matmul", "dot", "ddot"):
         return None
     kinds = [o["k"] for o in c["args"]]
